@@ -976,7 +976,7 @@ func (x Expr) set(data, value any, fun string, one bool) error {
 				end = tf[1]
 			}
 			if 2 < len(tf) {
-				step = tf[2]
+				step = boundStep(tf[2])
 			}
 			switch tv := prev.(type) {
 			case []any:
